@@ -3,7 +3,8 @@
 structure  = {"dflt_is_dc": 0|1, "cons": [{"rw": 0|1, "ot": T, "it": T, "otr": T, "itr": T}, ...]}      (1..4 consumers)
              ot / otr : [type = ] / [type_remote = ] on the producer's output dependency to this consumer
              it / itr : the same on the consumer's input dependency;  T in None, DEFAULT, FULL, UPPER, LOWER
-config     = {"m","n","ld","diag","nt","P","threads","short","delay_us","prank":[nt],"crank":[[nt]..],"sched"}
+config     = {"m","n","ld","diag","nt","P","threads","short","bcast","delay_us","prank":[nt],"crank":[[nt]..],"sched"}
+             short / bcast: runtime_comm_short_limit / runtime_comm_coll_bcast (None = the runtime's default)
 """
 import os
 
@@ -136,13 +137,44 @@ def is_local(cfg, c, k):
     return cfg["crank"][c][k] % cfg["P"] == cfg["prank"][k] % cfg["P"]
 
 
-def remote_shapes(struct, cfg, k):
-    """rank -> set of distinct remote datatype pairs with which tile k travels from the producer's rank to that rank."""
+def remote_groups(struct, pl, pr):
+    """rank -> {message -> set of reception datatypes} for the consumers of one tile placed as pl (producer on pr).
+    One message (one dep_datatype_index) per distinct combination <local type, remote type> of the output dependencies
+    (jdf.c:jdf_reorder_dep_list_by_type); several reception datatypes of one message make the receiver fall back to PACKED
+    reception (remote_dep_mpi_retrieve_datatype)."""
     per = {}
     for c, x in enumerate(struct["cons"]):
-        if not is_local(cfg, c, k):
-            per.setdefault(cfg["crank"][c][k] % cfg["P"], set()).add(edge_class(struct, x, False))
+        if pl[c] != pr:
+            per.setdefault(pl[c], {}).setdefault((x["ot"], x["otr"]), set()).add(x["itr"] or "DEFAULT")
     return per
+
+
+def several_remote_shapes(struct, pl, pr):
+    """documented unsupported with short messages (tests/collections/reshape/testing_remote_multiple_outs_same_pred_flow.c):
+    one output flow sent with several different remote shapes to one process."""
+    return any(len(g) >= 2 for g in remote_groups(struct, pl, pr).values())
+
+
+def packed_plus_other_shape(struct, pl, pr):
+    """finding C18-F2: a PACKED reception (one message, two reception datatypes) together with another remote shape of the
+    same flow on the same process."""
+    return any(len(g) >= 2 and any(len(v) >= 2 for v in g.values()) for g in remote_groups(struct, pl, pr).values())
+
+
+def forwarded_after_rw(struct, pl, pr):
+    """finding C18-F3 (not specific to typed flows): with the chain / binomial broadcast a process forwards the copy it
+    received to further processes while its own RW consumer may already have overwritten that copy.  True when an RW consumer
+    sits on a remote rank and the same message (same output <type, type_remote>) also goes to another remote rank."""
+    for c, x in enumerate(struct["cons"]):
+        if x["rw"] and pl[c] != pr:
+            for j, y in enumerate(struct["cons"]):
+                if j != c and pl[j] != pr and pl[j] != pl[c] and (y["ot"], y["otr"]) == (x["ot"], x["otr"]):
+                    return True
+    return False
+
+
+def placement(cfg, k):
+    return [cfg["crank"][c][k] % cfg["P"] for c in range(len(cfg["crank"]))]
 
 
 # ------------------------------------------------------------------ case file
